@@ -14,13 +14,15 @@ RULE = ('random valid nondegenerate extensions (3-5 D, any slice axis or none, c
         'None values) x image perturbations {exact, other in-plane extents, T+-1, V+-1, trailing dims dropped / added, S+-1, '
         'slice axis relabelled, dim_info removed, slice row flipped / permuted / rescaled, 3x3 part transposed, slice axis properly '
         'flipped (column negated, origin moved), in-plane axis flipped, slice / in-plane columns exchanged, row moved '
-        'within / beyond the tolerance}; affines mostly oblique (slice row != slice column) x keys (every key and a missing one) x indices {in range, one coordinate = extent, negative, too short, '
+        'within / beyond the tolerance}; affines mostly oblique (slice row != slice column) ; one or two perturbations composed per case, perturbations that do not apply are not labelled; ~12% trailing-singleton '
+        'extensions; 3-D image under a 5-D extension; x keys (every key and a missing one) x indices {in range, one coordinate = extent, negative, too short, '
         'too long, None}; non-trivial = the key is in a varying class')
 TRUSTED_BASE = ['hand-written Gallina model coq/Ext/Model.v of get_meta / meta_valid / __getitem__ (tied by Ext/Corr.v check_lookup)',
                 'nibabel Nifti1Image / header (shape, dim_info slice, affine) is a contract: only img.shape, '
                 'header.get_dim_info()[2], header.get_n_slices() = shape[slice_dim], img.affine are read',
-                'np.allclose(a, b, atol=1e-6) modelled exactly in Q as |a-b| <= atol + 1e-5*|b| (generators stay a factor >= 8 '
-                'away from the boundary, geometry is dyadic)']
+                'np.allclose(a, b, atol=<source literal>) modelled exactly in Q as |a-b| <= atol + 1e-5*|b|; the tolerance is '
+                'regenerated from the source, the property names no number: perturbations are either <= 2^-23 or >= 2^-5, so '
+                'nothing is judged near any plausible tolerance']
 ASSUMPTIONS = ['TWO matching predicates: agrees_dir (the SPEC: slice DIRECTIONS = affine columns agree) and agrees_code (what the code '
                'tests: affine ROWS).  C08_value / C08_bounds / C08_mismatch are about agrees_code; they hold for agrees_dir only on '
                'slice_sym (slice row = slice column in both affines, e.g. axial storage / symmetric 3x3 part): C08_*_dir.  Off that '
@@ -29,6 +31,9 @@ ASSUMPTIONS = ['TWO matching predicates: agrees_dir (the SPEC: slice DIRECTIONS 
                'the extension is valid and nondegenerate (NiftiWrapper.__init__ enforces check_valid); in lookup_hist the in-place '
                'edits keep it valid (setters of affine, slice_dim between axes of equal extent, in-plane shape; replace_extension)',
                'index entries are Python ints; image is 3-5 D with slice dim_info in {None,0,1,2}',
+               'where the property is silent nothing is pinned: a constant / the default returned for a BAD index may also be an '
+               'IndexError; __getitem__ of a non-constant key must raise (any exception class); get_subset-style exception '
+               'classes are not compared; only the IndexError of get_meta is (the property names it)',
                'Python == on values coincides with structural equality']
 
 DEFAULT = {'dflt': [1]}          # a value no generator emits
@@ -71,22 +76,28 @@ def agrees_code(E, img, c):
 agrees = agrees_dir
 
 
+def bad_index(img, idx):
+    return idx is not None and (len(idx) != len(img['shape']) or any(not (0 <= i < n) for i, n in zip(idx, img['shape'])))
+
+
 def expected(case, agrees=agrees_dir):
-    """What the property demands of get_meta: ('val', v) or ('err', 'EIndex')."""
+    """What the property demands of get_meta: ('val', v, lenient) or ('err', 'EIndex', False).  lenient: the property
+    does not say that a constant / the default wins over a bad index, so IndexError is acceptable there too."""
     E, img, k, idx = case['ext'], case['img'], case['key'], case['index']
+    bad = bad_index(img, idx)
     ent = X.entry_map(E).get(k)
     if ent is None or not X.class_ok(E['shape'], ent[0]):
-        return ('val', DEFAULT)
+        return ('val', DEFAULT, bad)
     c, vs = ent
     if c == 'GConst':
-        return ('val', vs[0])
+        return ('val', vs[0], bad)
     if not agrees(E, img, c):
-        return ('val', DEFAULT)
+        return ('val', DEFAULT, bad)
     if idx is None:
-        return ('val', DEFAULT)
+        return ('val', DEFAULT, False)
+    if bad:
+        return ('err', 'EIndex', False)
     sh = img['shape']
-    if len(idx) != len(sh) or any(not (0 <= i < n) for i, n in zip(idx, sh)):
-        return ('err', 'EIndex')
     s = idx[img['slice']] if img['slice'] is not None else 0
     t = idx[3] if len(idx) > 3 else 0
     v = idx[4] if len(idx) > 4 else 0
@@ -94,17 +105,22 @@ def expected(case, agrees=agrees_dir):
     S = sh[img['slice']] if img['slice'] is not None else 1
     T = sh[3] if len(sh) > 3 else 1
     i = X.cidx((S, T, 1), c, (s, t, v))
-    return ('val', vs[i]) if i < len(vs) else ('err', 'EIndex')
+    return ('val', vs[i], False) if i < len(vs) else ('err', 'EIndex', False)
 
 
-PERTS = ['exact'] * 6 + ['inplane', 'T+1', 'T-1', 'V+1', 'V-1', 'drop_trailing', 'add_trailing', 'S+1', 'S-1', 'relabel',
-                          'no_dim_info', 'flip_row', 'perm_rows', 'rescale_row', 'tiny', 'small', 'transpose',
+PERTS = ['exact'] * 6 + ['inplane', 'T+1', 'T-1', 'V+1', 'V-1', 'drop_trailing', 'drop_trailing2', 'add_trailing', 'S+1', 'S-1',
+                          'relabel', 'no_dim_info', 'flip_row', 'perm_rows', 'rescale_row', 'rescale_col', 'tiny', 'small', 'transpose',
                           'flip_slice_axis', 'flip_slice_axis', 'flip_inplane_axis', 'flip_inplane_axis', 'swap_axes_cols']
+TINY, SMALL = 2.0 ** -23, 2.0 ** -5     # far inside / far outside any sensible direction tolerance (the property names no number)
 
 
-def perturb(rng, E, pert):
-    sh, sd = list(E['shape']), E['sdim']
-    img = {'shape': sh, 'slice': sd, 'aff': copy.deepcopy(E['aff'])}
+def perturb(rng, E, pert, img=None):
+    """Apply one perturbation to the image state (default: the image the extension was made for)."""
+    if img is None:
+        img = {'shape': list(E['shape']), 'slice': E['sdim'], 'aff': copy.deepcopy(E['aff'])}
+    else:
+        img = copy.deepcopy(img)
+    sh, sd = img['shape'], img['slice']
     if pert == 'inplane':
         for ax in range(3):
             if ax != sd:
@@ -115,6 +131,8 @@ def perturb(rng, E, pert):
         sh[4] = max(1, sh[4] + (1 if pert == 'V+1' else -1))
     elif pert == 'drop_trailing' and len(sh) > 3:
         del sh[-1]
+    elif pert == 'drop_trailing2' and len(sh) > 4:
+        del sh[3:]                                   # a 3-D image under a 5-D extension
     elif pert == 'add_trailing' and len(sh) < 5:
         sh.append(rng.randint(1, 3))
     elif pert in ('S+1', 'S-1') and sd is not None:
@@ -130,6 +148,9 @@ def perturb(rng, E, pert):
         img['aff'][sd], img['aff'][o] = img['aff'][o], img['aff'][sd]
     elif pert == 'rescale_row' and sd is not None:
         img['aff'][sd] = [2.0 * x for x in img['aff'][sd][:3]] + img['aff'][sd][3:]
+    elif pert == 'rescale_col' and sd is not None:
+        for r in range(3):                           # other slice thickness: the slice column is rescaled
+            img['aff'][r][sd] = 2.0 * img['aff'][r][sd]
     elif pert == 'flip_slice_axis' and sd is not None:
         # a PROPER flip of the slice axis: direction (column) negated, origin moved to the other end
         a = img['aff']
@@ -154,8 +175,8 @@ def perturb(rng, E, pert):
         a = img['aff']
         img['aff'] = [[a[j][i] for j in range(3)] + [a[i][3]] for i in range(3)] + [a[3]]
     elif pert in ('tiny', 'small') and sd is not None:
-        j = rng.randrange(3)
-        img['aff'][sd][j] += (2.0 ** -23 if pert == 'tiny' else 2.0 ** -12) * rng.choice([1, -1])
+        # move BOTH the slice row and the slice column (entry [sd][sd] lies on both): within / beyond any tolerance
+        img['aff'][sd][sd] += (TINY if pert == 'tiny' else SMALL) * rng.choice([1, -1])
     return img
 
 
@@ -184,7 +205,7 @@ def gen_cases(rng, tier):
     for _ in range(n_ext):
         E = X.gen_ext(rng, tier, nkeys=rng.randint(1, 4), widen=rng.choice([0.0, 0.4]),
                       aff=X.gen_affine(rng, rng.choice(['dense', 'dense', 'perm', 'perm', 'diag'])),
-                      patterns=X.BASE_PATTERNS[1:] if rng.random() < 0.8 else None)
+                      patterns=X.BASE_PATTERNS[1:] if rng.random() < 0.8 else None, trailing1=0.12)
         if len(E['shape']) >= 4 and rng.random() < 0.6:
             # make sure per-volume / per-(slice,time) layouts are frequent: they are where index arithmetic matters
             d = X.dims(E)
@@ -194,8 +215,17 @@ def gen_cases(rng, tier):
                 if enc is not None:
                     ents[name] = enc
             E = X.mk_E(E['shape'], E['sdim'], E['aff'], ents)
-        pert = rng.choice(PERTS)
-        img = perturb(rng, E, pert)
+        exact = perturb(rng, E, 'exact')
+        names = [rng.choice(PERTS)]
+        if rng.random() < 0.3:
+            names.append(rng.choice(PERTS))           # two perturbations composed
+        img, applied = exact, []
+        for nm in names:
+            img2 = perturb(rng, E, nm, img)
+            if img2 != img:
+                applied.append(nm)                    # perturbations that do not apply (e.g. T+1 on a 3-D image) are not labelled
+            img = img2
+        pert = '+'.join(applied) or 'exact'
         keys = [k for k, _, _ in E['entries']] + ['NoSuchKey']
         for k in keys:
             for _ in range(2):
@@ -224,7 +254,9 @@ N13_SIG = 'lookup/slice-direction-row-vs-column'
 
 
 def _get_mismatch(g, exp):
-    kind, val = exp
+    kind, val, lenient = exp
+    if lenient and g.get('err') == 'EIndex':
+        return None
     if kind == 'val':
         if 'val' not in g:
             return 'get_meta raised %s (%s), expected %r' % (g.get('exc'), g.get('msg'), val)
@@ -235,32 +267,50 @@ def _get_mismatch(g, exp):
     return None
 
 
-def oracle(case, obs):
-    if 'crash' in obs:
-        return 'harness: %s' % obs.get('msg')
+def oracle_all(case, obs):
+    """All clause messages for one lookup (get_meta first, then meta_valid per class, then __getitem__)."""
+    E, img = case['ext'], case['img']
+    out = []
     g = obs['get']
     m = _get_mismatch(g, expected(case))
     if m:
-        ent0 = X.entry_map(case['ext']).get(case['key'])
+        ent0 = X.entry_map(E).get(case['key'])
         c0 = ent0[0] if ent0 else None
-        if c0 and agrees_dir(case['ext'], case['img'], c0) != agrees_code(case['ext'], case['img'], c0) \
-                and _get_mismatch(g, expected(case, agrees_code)) is None:
+        if c0 and agrees_dir(E, img, c0) != agrees_code(E, img, c0) and _get_mismatch(g, expected(case, agrees_code)) is None:
             # open finding N13: the code compares the affine ROW, the property speaks of the slice DIRECTION (column)
-            return N13_TAG + ' slice directions %s but the code (row test) %s: %s' % (
-                'agree' if agrees_dir(case['ext'], case['img'], c0) else 'differ',
-                'answers with the default' if agrees_dir(case['ext'], case['img'], c0) else 'returns a stored value', m)
-        return m
-    for name, m in zip(X.CLASSES, obs['mv']):
-        if not isinstance(m, bool):
-            return 'meta_valid(%s) raised %s' % (name, m)
-    ent = X.entry_map(case['ext']).get(case['key'])
+            m = N13_TAG + ' slice directions %s but the code (row test) %s: %s' % (
+                'agree' if agrees_dir(E, img, c0) else 'differ',
+                'answers with the default' if agrees_dir(E, img, c0) else 'returns a stored value', m)
+        out.append(m)
+    for name, mv in zip(X.CLASSES, obs['mv']):
+        if not isinstance(mv, bool):
+            out.append('meta_valid(%s) raised %s' % (name, mv))
+        elif mv != agrees_dir(E, img, name):
+            tag = (N13_TAG + ' ') if mv == agrees_code(E, img, name) else ''
+            out.append('%smeta_valid(%s) = %r but the image %s the extension for that class' % (
+                tag, name, mv, 'matches' if agrees_dir(E, img, name) else 'does not match'))
+    ent = X.entry_map(E).get(case['key'])
     it = obs['item']
     if ent is not None and ent[0] == 'GConst':
-        if it.get('val') != ent[1][0] or 'val' not in it:
-            return '__getitem__ returned %r for a constant' % (it,)
-    elif it.get('err') != 'EKey':
-        return '__getitem__ gave %r for a non-constant key, expected KeyError' % (it,)
-    return None
+        if 'val' not in it or it['val'] != ent[1][0]:
+            out.append('__getitem__ returned %r for a constant' % (it,))
+    elif 'err' not in it:
+        out.append('__getitem__ returned %r for a key that is not a global constant' % (it,))
+    return out
+
+
+def _pick(msgs):
+    """prefer a message that is not the known finding N13"""
+    for m in msgs:
+        if N13_TAG not in m:
+            return m
+    return msgs[0] if msgs else None
+
+
+def oracle(case, obs):
+    if 'crash' in obs:
+        return 'harness: %s: %s' % (obs.get('crash'), obs.get('msg'))
+    return _pick(oracle_all(case, obs))
 
 
 def signature(case, obs, msg):
@@ -389,16 +439,19 @@ def _aff_variants(rng, aff, sd):
         for row in a[:3]:
             row[i], row[j] = row[j], row[i]
     else:
-        a[r][rng.randrange(3)] += (2.0 ** -23 if kind == 'tiny' else 2.0 ** -12) * rng.choice([1, -1])
+        a[r][r] += (TINY if kind == 'tiny' else SMALL) * rng.choice([1, -1])
     return a, kind
 
 
 def gen_hist_cases(rng, tier):
+    """Every step carries the GENERATOR's truth about the state after it ('state': {'img', 'ext'}); answers are judged
+    against that, and a separate clause checks that the state read back from the live objects equals it."""
     n = 90 if tier == 'quick' else 700
     cases = []
     for _ in range(n):
         E = X.gen_ext(rng, tier, nkeys=rng.randint(1, 3), widen=rng.choice([0.0, 0.4]),
-                      aff=X.gen_affine(rng, rng.choice(['dense', 'perm', 'perm'])), patterns=X.BASE_PATTERNS[1:])
+                      aff=X.gen_affine(rng, rng.choice(['dense', 'perm', 'perm'])), patterns=X.BASE_PATTERNS[1:],
+                      trailing1=0.1)
         d = X.dims(E)
         ents = X.entry_map(E)
         for name, pat in (('PerVolume', 'vol'), ('PerSliceTime', 'slice_time'), ('PerSlice', 'slice'), ('Irregular', 'irregular')):
@@ -408,14 +461,18 @@ def gen_hist_cases(rng, tier):
         E = X.mk_E(E['shape'], E['sdim'], E['aff'], ents)
         img = {'shape': list(E['shape']), 'slice': E['sdim'], 'aff': copy.deepcopy(E['aff'])}
         keys = [k for k, _, _ in E['entries']]
-        cur_slice, cur_aff, cur_E = img['slice'], img['aff'], E
+        cur_slice, cur_aff, cur_E = img['slice'], copy.deepcopy(img['aff']), E
         steps, kinds = [], []
+
+        def state():
+            return {'img': {'shape': list(img['shape']), 'slice': cur_slice, 'aff': copy.deepcopy(cur_aff)},
+                    'ext': copy.deepcopy(cur_E)}
         for si in range(rng.randint(2, 4)):
             r = rng.random()
             pert = {'op': 'none'}
             if si > 0 or r < 0.3:
                 op = rng.choice(['dim_info', 'dim_info', 'aff_set', 'aff_set', 'restore', 'ext_affine', 'ext_slice_dim',
-                                 'ext_shape', 'replace_ext'])
+                                 'ext_shape', 'replace_ext', 'replace_ext'])
                 if op == 'dim_info':
                     cur_slice = rng.choice([x for x in (None, 0, 1, 2) if x != cur_slice])
                     pert = {'op': 'dim_info', 'slice': cur_slice}
@@ -424,13 +481,14 @@ def gen_hist_cases(rng, tier):
                     pert = {'op': 'aff_set', 'aff': cur_aff, 'how': k}
                 elif op == 'restore':
                     # back to a matching image: answers must come back too
-                    cur_aff, cur_slice = copy.deepcopy(cur_E['aff']), cur_E['sdim']
-                    steps.append({'pert': {'op': 'dim_info', 'slice': cur_slice}, 'queries': []})
+                    cur_slice = cur_E['sdim']
+                    steps.append({'pert': {'op': 'dim_info', 'slice': cur_slice}, 'queries': [], 'state': state()})
+                    cur_aff = copy.deepcopy(cur_E['aff'])
                     pert = {'op': 'aff_set', 'aff': cur_aff, 'how': 'restore'}
                 elif op == 'ext_affine':
                     a, k = _aff_variants(rng, cur_E['aff'], cur_E['sdim'])
                     cur_E = dict(cur_E, aff=a)
-                    pert = {'op': 'ext_affine', 'aff': a, 'how': k}
+                    pert = {'op': 'ext_affine', 'aff': a, 'how': 'ext_' + k}
                 elif op == 'ext_slice_dim' and cur_E['sdim'] is not None:
                     alts = [x for x in range(3) if x != cur_E['sdim'] and cur_E['shape'][x] == cur_E['shape'][cur_E['sdim']]]
                     if alts:
@@ -444,10 +502,14 @@ def gen_hist_cases(rng, tier):
                     cur_E = dict(cur_E, shape=sh)
                     pert = {'op': 'ext_shape', 'shape': sh}
                 elif op == 'replace_ext':
+                    # another valid extension: same grid, other T / V, or another slice count
                     sh2 = list(cur_E['shape'])
-                    if len(sh2) > 3 and rng.random() < 0.5:
+                    how = rng.choice(['same', 'trailing', 'slices'])
+                    if how == 'trailing' and len(sh2) > 3:
                         ax = rng.randrange(3, len(sh2))
                         sh2[ax] = max(2, sh2[ax] + rng.choice([1, -1]))
+                    elif how == 'slices' and cur_E['sdim'] is not None:
+                        sh2[cur_E['sdim']] = max(1, sh2[cur_E['sdim']] + rng.choice([1, -1, 2]))
                     E2 = X.gen_ext(rng, tier, shape=sh2, sdim=cur_E['sdim'], aff=cur_E['aff'], nkeys=2,
                                    patterns=X.BASE_PATTERNS[1:])
                     ents2 = X.entry_map(E2)
@@ -456,7 +518,7 @@ def gen_hist_cases(rng, tier):
                         if enc is not None:
                             ents2[name] = enc
                     cur_E = X.mk_E(sh2, E2['sdim'], E2['aff'], ents2)
-                    pert = {'op': 'replace_ext', 'ext': cur_E}
+                    pert = {'op': 'replace_ext', 'ext': cur_E, 'how': 'replace_' + how}
             kinds.append(pert.get('how') or pert['op'])
             qkeys = sorted(set(keys + [k for k, _, _ in cur_E['entries']]))
             queries = []
@@ -464,7 +526,7 @@ def gen_hist_cases(rng, tier):
                 for _ in range(1 if len(qkeys) > 4 else 2):
                     idx, _ik = gen_index(rng, img['shape'])
                     queries.append([k, idx])
-            steps.append({'pert': pert, 'queries': queries})
+            steps.append({'pert': pert, 'queries': queries, 'state': state()})
         cases.append({'kind': 'hist/' + '+'.join(kinds), 'ext': E, 'img': img, 'steps': steps})
     return cases
 
@@ -472,10 +534,10 @@ def gen_hist_cases(rng, tier):
 class LookupHist:
     NAME = 'lookup_hist'
     CORR_REQUIRE = 'From DV Require Import Common.Jv Ext.Types Ext.Model Ext.Corr.'
-    CORR_CASE_TYPE = 'list lookup_case'
-    CORR_CHECK = 'forallb check_lookup'
-    CORR_SHOW = 'map run_lookup'
-    SHARD = 25
+    CORR_CASE_TYPE = 'list hist_step'
+    CORR_CHECK = 'forallb check_step'
+    CORR_SHOW = 'map run_step'
+    SHARD = 30
     IMPL_TIMEOUT = 40
     RULE = ('ONE NiftiWrapper object, 2-4 steps; each step = optional IN-PLACE perturbation (header set_dim_info slice entry changed '
             '/ removed / restored; image affine overwritten in place through nii_img.affine[...] with rows flipped / swapped / '
@@ -490,33 +552,50 @@ class LookupHist:
 
     @staticmethod
     def coq_case(case, obs):
+        # the model is evaluated on the GENERATOR's state (the oracle separately checks read-back == generator state)
         items = []
         for st_c, st_o in zip(case['steps'], obs.get('steps', [])):
+            qs = []
             for (key, idx), a in zip(st_c['queries'], st_o['answers']):
-                q = {'ext': st_o['ext'], 'img': st_o['img'], 'key': key, 'index': idx, 'default': DEFAULT}
-                items.append(X.lookup_case_to_coq(q, a['live']))
+                live = a['live']
+                mv = [m if isinstance(m, bool) else False for m in live['mv']]
+                qs.append('(mk_lookup_query %s %s %s %s %s %s)' % (
+                    X.cstr(key), X.copt(idx, lambda ix: X.clist(X.cz(i) for i in ix)), X.cjv(DEFAULT),
+                    X.resjv_to_coq(live['get']), X.clist(X.cbool(b) for b in mv), X.resjv_to_coq(live['item'])))
+            items.append('(%s, %s, %s)' % (X.img_to_coq(st_c['state']['img']), X.ext_to_coq(st_c['state']['ext']), X.clist(qs)))
         return X.clist(items)
 
     @staticmethod
     def oracle(case, obs):
         if 'crash' in obs:
             return 'harness: %s: %s' % (obs.get('crash'), obs.get('msg'))
+        msgs = []
+        if len(obs.get('steps', [])) != len(case['steps']):
+            return 'history stopped after %d of %d steps' % (len(obs.get('steps', [])), len(case['steps']))
         for si, (st_c, st_o) in enumerate(zip(case['steps'], obs['steps'])):
+            op = st_c['pert']['op']
+            T = st_c['state']
+            if st_o['img'] != T['img']:
+                msgs.append('step %d (%s): the image state read back %r is not what the edits produce %r' % (si, op, st_o['img'], T['img']))
+            if st_o['ext'] != T['ext']:
+                msgs.append('step %d (%s): the extension read back differs from what the edits produce' % (si, op))
             for (key, idx), a in zip(st_c['queries'], st_o['answers']):
                 if a['live'] != a['fresh']:
-                    return ('step %d (%s): lookup of %r at %r on the used wrapper gives %r but a fresh wrapper in the same state '
-                            'gives %r' % (si, st_c['pert']['op'], key, idx, _short(a['live']), _short(a['fresh'])))
-                q = {'ext': st_o['ext'], 'img': st_o['img'], 'key': key, 'index': idx, 'default': DEFAULT}
-                m = oracle(q, a['live'])
-                if m:
-                    return 'step %d (%s): %s' % (si, st_c['pert']['op'], m)
-        return None
+                    msgs.append('step %d (%s): lookup of %r at %r on the used wrapper gives %r but a fresh wrapper in the same '
+                                'state gives %r' % (si, op, key, idx, _short(a['live']), _short(a['fresh'])))
+                q = {'ext': T['ext'], 'img': T['img'], 'key': key, 'index': idx, 'default': DEFAULT}
+                msgs += ['step %d (%s): %s' % (si, op, m) for m in oracle_all(q, a['live'])]
+        return _pick(msgs)
 
     @staticmethod
     def signature(case, obs, msg):
         if N13_TAG in msg:
             return N13_SIG
-        return 'lookup-history/' + ('stateful' if 'fresh wrapper' in msg else 'wrong-answer')
+        if 'fresh wrapper' in msg:
+            return 'lookup-history/stateful'
+        if 'read back' in msg:
+            return 'lookup-history/state-readback'
+        return 'lookup-history/wrong-answer'
 
     @staticmethod
     def nontrivial(case, obs):
@@ -524,16 +603,13 @@ class LookupHist:
 
     @staticmethod
     def shrink(case):
-        if len(case['steps']) > 1:
-            for i in range(len(case['steps'])):
+        # only queries are dropped: every step keeps its perturbation and its generator state, so a candidate is a
+        # history of the same domain
+        for i, st in enumerate(case['steps']):
+            for j in range(len(st['queries'])):
                 c = copy.deepcopy(case)
-                c['steps'][i]['queries'] = []
-                if any(st['queries'] for st in c['steps']):
-                    yield c
-        for F in X.shrink_E(case['ext']):
-            c = dict(case)
-            c['ext'] = F
-            yield c
+                del c['steps'][i]['queries'][j]
+                yield c
 
 
 def _short(a):
